@@ -123,24 +123,10 @@ def run(facts, R):
 
     # ---------------- escape-tables -------------------------------------------------------------------------------------
     et = facts.body("registry::escape_token")
-    ev = render_n(Sym(et).local(0), callsite_ordinals(et))
-    if "replace#2(<impl str>::replace#1(arg1" in ev:
-        ok = ev == "<impl str>::replace#2(<impl str>::replace#1(arg1, 126, '~0'), 47, '~1')"
-        R.check(ok, "escape-tables", et.path, "escape: '~'->'~0' then '/'->'~1'", "escape_token is %s" % ev, et.span, ev)
-    else:
-        R.undecide("escape-tables", et.path, "escape_token is no longer a replace chain: %s" % ev[:100])
     jp = facts.bodies.get("json_pointer::parse::{closure#0}")
-    if jp is not None:
-        jv = render_n(Sym(jp).local(0), callsite_ordinals(jp))
-        if "replace#2(<impl str>::replace#1(" in jv:
-            ok = jv == "<impl str>::replace#2(<impl str>::replace#1(arg2, '~1', '/'), '~0', '~')"
-            R.check(ok, "escape-tables", jp.path, "unescape: '~1'->'/' then '~0'->'~'", "json_pointer::parse token map is %s" % jv, jp.span, jv)
-        else:
-            R.undecide("escape-tables", jp.path, "json_pointer::parse closure is no longer a replace chain")
-    else:
-        R.undecide("escape-tables", "json_pointer::parse", "token closure not found")
     # generic: every nested str::replace chain over RFC 6901 escapes applies them in the mandated order
     n_chain = 0
+    chain_fns = {}
     for b in facts.bodies.values():
         if not (b.path.startswith("registry::") or b.path.startswith("json_pointer::") or b.path.startswith("server::")):
             continue
@@ -162,14 +148,29 @@ def run(facts, R):
             a, bb_, c, d = lit(inner[2][1]), lit(inner[2][2]), lit(outer[2][1]), lit(outer[2][2])
             if {a, c} == {"~0", "~1"}:
                 n_chain += 1
+                chain_fns.setdefault(b.path, []).append(("unescape", inner[2][0], i))
                 R.check(a == "~1" and bb_ == "/" and c == "~0" and d == "~", "escape-tables", b.path, "unescape chain order",
                         "reference tokens are unescaped as replace(%r,%r).replace(%r,%r): RFC 6901 requires '~1'->'/' before '~0'->'~' (otherwise '~01' decodes to '/')" % (a, bb_, c, d),
                         t.get("span"), "'~1'->'/' then '~0'->'~'")
             elif {a, c} == {"~", "/"}:
                 n_chain += 1
+                chain_fns.setdefault(b.path, []).append(("escape", inner[2][0], i))
                 R.check(a == "~" and bb_ == "~0" and c == "/" and d == "~1", "escape-tables", b.path, "escape chain order",
                         "tokens are escaped as replace(%r,%r).replace(%r,%r): '~' must be escaped before '/'" % (a, bb_, c, d), t.get("span"), "'~'->'~0' then '/'->'~1'")
     R.floor("escape-tables", n_chain, 2, "escape/unescape replace chains")
+    # the two anchored encoders: the chain is applied to the function's own input and its result is what is returned
+    for b, kind, argname in ((et, "escape", "arg1"), (jp, "unescape", "arg2")):
+        if b is None:
+            R.undecide("escape-tables", "json_pointer::parse", "token closure not found")
+            continue
+        got = [c for c in chain_fns.get(b.path, []) if c[0] == kind]
+        if not got:
+            R.undecide("escape-tables", b.path, "no %s replace chain in %s" % (kind, b.path))
+            continue
+        rv = Sym(b).local(0)
+        ok = any(render_n(c[1]) == argname for c in got) and rv[0] == "call" and rv[1].endswith("replace") and rv[-1] in [c[2] for c in got]
+        R.check(ok, "escape-tables", b.path, "%s chain maps the whole token and is the result" % kind,
+                "%s returns %s" % (b.path, render_n(rv)[:120]), b.span, render_n(rv)[:120])
     ut = facts.body("registry::unescape_token")
     us = Sym(ut)
     uo = callsite_ordinals(ut)
